@@ -43,23 +43,24 @@ type thread struct {
 // Sched is the controlled scheduler of one execution. It must be created and used inside a
 // synctest bubble; the bubble's root goroutine is the controller.
 type Sched struct {
-	mu        sync.Mutex
-	c         *Chooser
-	threads   []*thread
-	byGoid    map[uint64]*thread
-	running   *thread
-	Auto      bool                       // auto-register unknown goroutines that hit a point
-	Scope     func(file, fn string) bool // nil = every shimmed site is a point
-	OnDecide  func()                     // invariant hook, called at every decision with all threads stopped
-	Events    func() []Event             // harness events enabled at this decision (may be nil)
-	MaxSteps  int                        // decision horizon for this execution
-	YieldCap  int                        // consecutive yield-only decisions before livelock
-	Deadlock  bool                       // set when no thread/event was enabled but harness threads were unfinished
-	Livelock  bool                       // set when only yielding threads were enabled for YieldCap decisions
-	Wedged    string                     // non-empty when the execution could not be driven
-	Blocked   []string                   // description of blocked threads at deadlock
-	Log       []string                   // optional decision log
-	scopeMemo sync.Map                   // pc -> bool
+	mu           sync.Mutex
+	c            *Chooser
+	threads      []*thread
+	byGoid       map[uint64]*thread
+	running      *thread
+	Auto         bool                       // auto-register unknown goroutines that hit a point
+	Scope        func(file, fn string) bool // nil = every shimmed site is a point
+	OnDecide     func()                     // invariant hook, called at every decision with all threads stopped
+	Events       func() []Event             // harness events enabled at this decision (may be nil)
+	MaxSteps     int                        // decision horizon for this execution
+	YieldCap     int                        // consecutive yield-only decisions before livelock
+	Deadlock     bool                       // set when no thread/event was enabled but harness threads were unfinished
+	Livelock     bool                       // set when only yielding threads were enabled for YieldCap decisions
+	Wedged       string                     // non-empty when the execution could not be driven
+	Blocked      []string                   // description of blocked threads at deadlock
+	Log          []string                   // optional decision log
+	ThreadPanics []string                   // panics raised inside controlled threads (harnesses report them)
+	scopeMemo    sync.Map                   // pc -> bool
 	// TimeStep > 0: when no thread and no event is enabled but harness threads are unfinished, the
 	// controller lets virtual time pass in steps of TimeStep (at most MaxIdleSteps in a row) before
 	// declaring a deadlock. Modelling assumption: timers fire only when nothing else can run.
@@ -140,6 +141,14 @@ func (s *Sched) spawn(name string, fn func(), harness bool) {
 		// threads begin is a scheduling decision as well.
 		s.park(t, "start", nil, false)
 		defer func() {
+			// a panic of a controlled thread (raised by the code under test) is recorded, not fatal
+			if p := recover(); p != nil {
+				buf := make([]byte, 4096)
+				n := runtime.Stack(buf, false)
+				s.mu.Lock()
+				s.ThreadPanics = append(s.ThreadPanics, fmt.Sprintf("thread %s: %v\n%s", t.name, p, buf[:n]))
+				s.mu.Unlock()
+			}
 			s.mu.Lock()
 			t.done = true
 			s.mu.Unlock()
